@@ -428,7 +428,10 @@ CurAdvanceStep(s, t) ==
   LET old == s.cache.set.status.curRev new == t.api.set.status IN
   (t.api.set.status # s.api.set.status /\ new.curRev # old /\ \E k \in 1..Len(s.api.revs) : s.api.revs[k].name = old) =>
      /\ new.curRev = new.updRev
-     /\ \A o \in Ords : s.cache.pods[o].present => (HealthyPodS(s.cache.pods[o]) /\ s.cache.pods[o].rev = new.updRev)
+     \* (pods the set controls as far as its cache shows; an orphan it could not adopt is not one of its pods - the
+     \* per-reconcile form of this rule, CurAdvanceOK, is exact about adoption and is checked on every recorded reconcile)
+     /\ \A o \in Ords : (s.cache.pods[o].present /\ s.cache.pods[o].owner = "self") =>
+                             (HealthyPodS(s.cache.pods[o]) /\ s.cache.pods[o].rev = new.updRev)
 RollsOneAtATime ==
   [][ last'.act = "Reconcile" => (OneDownStep(Here, [api |-> api', cache |-> cache']) /\ CurAdvanceStep(Here, [api |-> api', cache |-> cache'])) ]_vars
 
